@@ -691,9 +691,12 @@ def show(e: ast.AST | None, limit: int = 90) -> str:
         return new
 
     try:
-        text = " ".join(ast.unparse(cp(e)).split())
+        text = " ".join(ast.unparse(ast.fix_missing_locations(cp(e))).split())
     except Exception:  # noqa: BLE001
-        text = type(e).__name__
+        try:
+            text = " ".join(ast.unparse(e).split())
+        except Exception:  # noqa: BLE001
+            text = type(e).__name__
     return text if len(text) <= limit else text[: limit - 3] + "..."
 
 
